@@ -16,6 +16,7 @@ def run(ctx: common.Ctx):
     doc_checks.run_c06_whole_field(ctx)
     doc_checks.run_c06_stale_views(ctx)
     doc_checks.run_c06_glued_removals(ctx)
+    doc_checks.run_c06_glued_list_removals(ctx)
     tree_check.correspondence(ctx, 'C06')
 
 
@@ -25,6 +26,7 @@ def search(ctx: common.Ctx):
     doc_checks.run_c06_whole_field(ctx)
     doc_checks.run_c06_stale_views(ctx)
     doc_checks.run_c06_glued_removals(ctx)
+    doc_checks.run_c06_glued_list_removals(ctx)
 
 
 def replay(ctx, path):
